@@ -1,5 +1,5 @@
 (* C19  The lake service behaves exactly like direct access.  Statements only. *)
-From ZV Require Import Base.Prelude Model.Service Proofs.ServiceProofs.
+From ZV Require Import Base.Prelude Model.Service Proofs.ServiceProofs Model.Channels Proofs.ChannelsProofs.
 
 (* Query responses with control frames: the client receives exactly the values
    of the batches, in order, and the late error if there was one, for every
@@ -43,3 +43,12 @@ Theorem C19_remote_history_refines_local :
       fold_left (fun st r => fst (local_step Req Resp State handler st r)) h s.
 Proof. exact remote_history_refines_local. Qed.
 Print Assumptions C19_remote_history_refines_local.
+
+(* Multi-output queries: whatever the interleaving of batches and channel ends
+   of any number of channels (the server announces a channel only when it
+   changes), the client delivers every batch under the channel it was written
+   to, and every channel end, in order. *)
+Theorem C19_channel_attribution :
+  forall evs, chan_client 0 (chan_server 0 evs) = map relabel evs.
+Proof. exact chan_roundtrip. Qed.
+Print Assumptions C19_channel_attribution.
